@@ -460,6 +460,12 @@ func init() {
 							}
 							c05Check(c, e, ls+" "+op+" "+rs, want, tag, defs)
 						}
+						// operands read from a container (interface-boxed): same arithmetic
+						if (j+c.Index)%2 == 0 {
+							c05Check(c, e, "s[0] "+op+" s[1]", want, tag, map[string]interface{}{"s": []interface{}{x.goValue(), y.goValue()}})
+						} else {
+							c05Check(c, e, "m.a "+op+" id(y)", want, tag, map[string]interface{}{"m": map[string]interface{}{"a": x.goValue()}, "y": y.goValue(), "id": func(v interface{}) interface{} { return v }})
+						}
 						c.Tag("op:" + tag)
 					}
 				case c.Index == nEnum:
